@@ -734,12 +734,36 @@ func settleAndJudge(c *h.Case, env *reloadEnv, g *histGen, svc *client.Service, 
 	pfx := env.pfx + "p"
 	want := expectedLive(s, targetOpen)
 	var live map[string]bool
+	wantRemote := map[int]bool{}
+	for _, e := range s.P {
+		if e.Type == "tcp" && want[e.Name] {
+			wantRemote[e.RemotePort] = true
+		}
+	}
+	strayPort := 0
 	conv := h.Eventually(convergeGrace, func() bool {
 		live = liveNames(pfx)
-		return reflect.DeepEqual(setKeys(live), setKeys(want))
+		if !reflect.DeepEqual(setKeys(live), setKeys(want)) {
+			return false
+		}
+		// messages of a burst may still be in flight (registered, then closed): the ledger is taken when
+		// the operating system agrees with the server's table
+		lp := h.OwnTCPListenPorts()
+		strayPort = 0
+		for _, p := range env.remote {
+			if lp[p] && !wantRemote[p] {
+				strayPort = p
+				return false
+			}
+		}
+		return true
 	})
 	c.Ev("settle", "step", stepIdx, "want", setKeys(want), "live", setKeys(live))
 	if !conv {
+		if strayPort != 0 && reflect.DeepEqual(setKeys(live), setKeys(want)) {
+			c.Violation("remote-port-of-removed-proxy-still-listening", "step %d: %v after the reload port %d belongs to no configured-and-healthy proxy but is still listening (server table %v)", stepIdx, convergeGrace, strayPort, setKeys(live))
+			return false
+		}
 		for n := range live {
 			if !want[n] {
 				why := "is not in the configuration any more"
@@ -822,7 +846,6 @@ func settleAndJudge(c *h.Case, env *reloadEnv, g *histGen, svc *client.Service, 
 	}
 
 	// registration content, traffic, operating system
-	usedRemote := map[int]bool{}
 	for n := range want {
 		entries := s.pByName(n)
 		evs := regEvents(n)
@@ -848,9 +871,6 @@ func settleAndJudge(c *h.Case, env *reloadEnv, g *histGen, svc *client.Service, 
 		}
 		run.Count("registrations_content_checked", 1)
 		e := entries[match]
-		if e.Type == "tcp" {
-			usedRemote[e.RemotePort] = true
-		}
 		t := tracks[n]
 		if e.Type == "tcp" && !e.Health {
 			// which backend answers must be one the configuration names (duplicates may differ in nothing else)
@@ -890,13 +910,6 @@ func settleAndJudge(c *h.Case, env *reloadEnv, g *histGen, svc *client.Service, 
 				t.conn, t.connGen = cn, t.gens
 				run.Count("tunnel_connections_opened", 1)
 			}
-		}
-	}
-	lports := h.OwnTCPListenPorts()
-	for _, p := range env.remote {
-		if !usedRemote[p] && lports[p] {
-			c.Violation("remote-port-of-removed-proxy-still-listening", "step %d: port %d belongs to no configured-and-healthy proxy but is still listening", stepIdx, p)
-			return false
 		}
 	}
 
